@@ -77,6 +77,13 @@ func c15Cfgs() []*bsCfg {
 			c.Pool = true
 			return c
 		}(),
+		// a hand-off queue of capacity 1: it is full when one policy step evicts two entries (the worker runs between
+		// policy steps); the second demotion is dropped by design - but the entry must still leave memory
+		func() *bsCfg {
+			c := base("queue-full", 2, []bsOp{S(1), S(2), {"set", 3, 2, 0}, {"set", 1, 2, 0}, H(1), H(2)})
+			c.Hy = &hyCfg{Workers: 1, Prob: 1, SecBuf: 1, Sync: true, Keys: []int{1, 2, 3}}
+			return c
+		}(),
 		// fault scripts (expanded by c15FaultScripts)
 		base("fault-simple", 1, []bsOp{T(1), T(2), T(3), H(1), D(1)}),
 		ld(base("fault-loading", 2, []bsOp{L(1), L(2), L(3), T(1), D(1)}), long),
@@ -244,6 +251,9 @@ func c15Check(res *vh.Result) (drained, probe bsVisit) {
 			if !probing {
 				what = "a Get"
 			}
+			if strings.HasPrefix(cause, "never-demoted:handoff-queue-full:") {
+				continue // "a full hand-off queue drops demotions by design": outside the statement
+			}
 			viol("evicted-entry-lost", cause, fmt.Sprintf("key %d holds %d (written by %s, deadline %d, now %d), it is not resident in memory, and %s %s: %s(%d) returned (%d,%v), loader calls %d; secondary calls inside that Get: %s",
 				k, ref.V, ref.Rec.Op, ref.Deadline, r.Now, what, bad, r.Op.Kind, k, r.Got, r.OK, r.Loads, hy.sec.logString(sp[0])))
 		}
@@ -272,6 +282,9 @@ func c15Check(res *vh.Result) (drained, probe bsVisit) {
 					continue
 				}
 				st.tainted[key] = true
+				if strings.HasPrefix(whyAbsent(k, ref.V), "never-demoted:handoff-queue-full:") {
+					continue // dropped by design (full hand-off queue)
+				}
 				viol("evicted-entry-lost", whyAbsent(k, ref.V), fmt.Sprintf("key %d holds %d (written by %s, deadline %d, now %d) but at quiescence it is neither resident in memory nor does the secondary tier hold that value", k, ref.V, ref.Rec.Op, ref.Deadline, now))
 			}
 		}
